@@ -439,10 +439,17 @@ func addMessageAuthenticator(packet *radius.Packet, secret []byte) error {
 	return nil
 }
 
-// formatMAC formats a MAC address for RADIUS (uppercase with dashes)
+// formatMAC formats a MAC address for RADIUS (uppercase with dashes). A DHCP client
+// hardware address may be 1 to 16 bytes long: every byte it has is written.
 func formatMAC(mac net.HardwareAddr) string {
-	return fmt.Sprintf("%02X-%02X-%02X-%02X-%02X-%02X",
-		mac[0], mac[1], mac[2], mac[3], mac[4], mac[5])
+	out := make([]byte, 0, 3*len(mac))
+	for i, b := range mac {
+		if i > 0 {
+			out = append(out, '-')
+		}
+		out = append(out, fmt.Sprintf("%02X", b)...)
+	}
+	return string(out)
 }
 
 // TerminateCause constants
